@@ -2,7 +2,7 @@ from common import Ctx, RULES
 from legs import run_classified_leg
 
 PID = "C19"
-COQ_FILES = ["Model/Base.v", "Model/Scope.v", "Proofs/ScopeProofs.v", "Properties/C19.v"]
+COQ_FILES = ["Model/Base.v", "Model/Scope.v", "Proofs/ScopeProofs.v", "Gen/Scope.v", "Ties/ScopeTie.v", "Properties/C19.v"]
 RULES[PID] = ("e2e leg: seeded generated Rust programs (gen_prog: nested blocks with shadowing, loops, recursion, closures through dyn Fn, generics), "
               "instrumented by the harness so that the program prints the value of every visible u64 binding before each statement and E/X at "
               "function entry/exit; line breakpoints on every statement where a name is shadowed, on the recursion / closure helpers (prob. 1/2) and "
